@@ -21,20 +21,25 @@ Inductive path :=
 | PSAttr       (* static.a.b *)
 | PSItem       (* static['a']['b'] *)
 | PGet         (* m.get('a/b')      -> the handle, nothing is loaded *)
-| PSGet        (* static.a.get('b') -> the handle, nothing is loaded *)
-| PSwitch.     (* SimpleLoop.switch(h): Loop.switch calls h(), then h() again *)
+| PSGet.       (* static.a.get('b') -> the handle, nothing is loaded *)
 
 Inductive op :=
 | OAccess (h : Z) (p : path)
 | OClear (h : Z)
-| OCached (h : Z).
+| OCached (h : Z)
+| OSwitch (h : Z) (cc cn : bool).
+  (* SimpleLoop.switch(h, clear_current=cc, clear_next=cn) of desper/loop.py:
+     Loop.switch clears the current handle (if any) when cc, clears h when cn,
+     makes h current and calls h(); SimpleLoop.switch calls h() again *)
 
 (* what the harness observes after each operation:
    o_loads : how many times load() of that handle has run so far;
    o_flag  : access through a loading path: "the result is (identical to)
              the object returned by the most recent load() of this handle";
              PGet/PSGet: "the result is the handle object itself";
-             OCached: the value of .cached;  OClear: true *)
+             OCached: the value of .cached;  OClear: true;
+             OSwitch: "loop.current_world is the object of the most recent
+             load of h" *)
 Record obs := { o_loads : Z; o_flag : bool }.
 
 Definition trace := list (op * obs).
@@ -47,9 +52,12 @@ Record hstate := {
 }.
 
 Definition h_init := {| h_cached := false; h_cache := None; h_loads := 0 |}.
-Definition state := list (Z * hstate).
-Definition hget (s : state) (h : Z) : hstate :=
+Definition hstates := list (Z * hstate).
+Definition hget (s : hstates) (h : Z) : hstate :=
   match alookup h s with Some x => x | None => h_init end.
+(* the handles, and Loop._current_world_handle *)
+Record state := { st_h : hstates; st_cur : option Z }.
+Definition st_init := {| st_h := []; st_cur := None |}.
 
 (* Handle.__call__ : returns (new handle state, serial of the returned value) *)
 Definition call (x : hstate) : hstate * option Z :=
@@ -67,7 +75,8 @@ Definition is_latest (x : hstate) (v : option Z) : bool :=
   match v with Some n => n =? h_loads x | None => false end.
 
 (* one step: the code's result compared with the observation *)
-Definition step (s : state) (o : op) (ob : obs) : option state :=
+Definition step (st : state) (o : op) (ob : obs) : option state :=
+  let s := st_h st in
   match o with
   | OAccess h p =>
       let x := hget s h in
@@ -75,22 +84,30 @@ Definition step (s : state) (o : op) (ob : obs) : option state :=
       | PCall | PItem | PSAttr | PSItem =>
           let '(x', v) := call x in
           if (o_loads ob =? h_loads x') && Bool.eqb (o_flag ob) (is_latest x' v)
-          then Some (aset h x' s) else None
-      | PSwitch =>
-          let '(x1, _) := call x in
-          let '(x2, v) := call x1 in
-          if (o_loads ob =? h_loads x2) && Bool.eqb (o_flag ob) (is_latest x2 v)
-          then Some (aset h x2 s) else None
+          then Some {| st_h := aset h x' s; st_cur := st_cur st |} else None
       | PGet | PSGet =>
-          if (o_loads ob =? h_loads x) && o_flag ob then Some s else None
+          if (o_loads ob =? h_loads x) && o_flag ob then Some st else None
       end
   | OClear h =>
       let x' := clear (hget s h) in
-      if (o_loads ob =? h_loads x') && o_flag ob then Some (aset h x' s) else None
+      if (o_loads ob =? h_loads x') && o_flag ob
+      then Some {| st_h := aset h x' s; st_cur := st_cur st |} else None
   | OCached h =>
       let x := hget s h in
       if (o_loads ob =? h_loads x) && Bool.eqb (o_flag ob) (h_cached x)
-      then Some s else None
+      then Some st else None
+  | OSwitch h cc cn =>
+      (* if clear_current and self._current_world_handle is not None: clear *)
+      let s1 := match st_cur st with
+                | Some c => if cc then aset c (clear (hget s c)) s else s
+                | None => s end in
+      (* if clear_next: world_handle.clear() *)
+      let s2 := if cn then aset h (clear (hget s1 h)) s1 else s1 in
+      (* self._current_world = world_handle() ; world_handle().dispatch_enabled = True *)
+      let '(x1, _) := call (hget s2 h) in
+      let '(x2, v) := call x1 in
+      if (o_loads ob =? h_loads x2) && Bool.eqb (o_flag ob) (is_latest x2 v)
+      then Some {| st_h := aset h x2 s2; st_cur := Some h |} else None
   end.
 
 Fixpoint run (s : state) (tr : trace) : option state :=
@@ -100,19 +117,26 @@ Fixpoint run (s : state) (tr : trace) : option state :=
   end.
 
 Definition accepts (tr : trace) : bool :=
-  match run [] tr with Some _ => true | None => false end.
+  match run st_init tr with Some _ => true | None => false end.
 
 (* ---- the property, over observations only ------------------------------ *)
 (* spec state per handle: number of loads seen, and whether an access has
    happened since the last clear *)
-Definition sstate := list (Z * (Z * bool)).
-Definition sget (s : sstate) (h : Z) : Z * bool :=
+Definition shandles := list (Z * (Z * bool)).
+Definition sget (s : shandles) (h : Z) : Z * bool :=
   match alookup h s with Some x => x | None => (0, false) end.
+(* per handle (loads, accessed since last clear), and the handle the loop
+   switched to last *)
+Record sstate := { sp_h : shandles; sp_cur : option Z }.
+Definition sp_init := {| sp_h := []; sp_cur := None |}.
 
 Definition loading (p : path) : bool :=
   match p with PGet | PSGet => false | _ => true end.
 
-Definition spec_step (s : sstate) (o : op) (ob : obs) : option sstate :=
+Definition sclear (h : Z) (s : shandles) : shandles := aset h (fst (sget s h), false) s.
+
+Definition spec_step (st : sstate) (o : op) (ob : obs) : option sstate :=
+  let s := sp_h st in
   match o with
   | OAccess h p =>
       let '(n, since) := sget s h in
@@ -120,16 +144,30 @@ Definition spec_step (s : sstate) (o : op) (ob : obs) : option sstate :=
         (* at most one load between clears; the first access after a clear
            loads; the result is the object of that one load *)
         let n' := if since then n else n + 1 in
-        if (o_loads ob =? n') && o_flag ob then Some (aset h (n', true) s) else None
+        if (o_loads ob =? n') && o_flag ob
+        then Some {| sp_h := aset h (n', true) s; sp_cur := sp_cur st |} else None
       else
-        if (o_loads ob =? n) && o_flag ob then Some s else None
+        if (o_loads ob =? n) && o_flag ob then Some st else None
   | OClear h =>
       let '(n, _) := sget s h in
-      if (o_loads ob =? n) then Some (aset h (n, false) s) else None
+      if (o_loads ob =? n) && o_flag ob
+      then Some {| sp_h := sclear h s; sp_cur := sp_cur st |} else None
   | OCached h =>
       (* cached tells whether the next access will NOT load *)
       let '(n, since) := sget s h in
-      if (o_loads ob =? n) && Bool.eqb (o_flag ob) since then Some s else None
+      if (o_loads ob =? n) && Bool.eqb (o_flag ob) since then Some st else None
+  | OSwitch h cc cn =>
+      (* a switch is: a clear of the handle being left (if asked and if there
+         is one), a clear of the target (if asked), then an access of the
+         target, whose world becomes the current one *)
+      let s1 := match sp_cur st with
+                | Some c => if cc then sclear c s else s
+                | None => s end in
+      let s2 := if cn then sclear h s1 else s1 in
+      let '(n, since) := sget s2 h in
+      let n' := if since then n else n + 1 in
+      if (o_loads ob =? n') && o_flag ob
+      then Some {| sp_h := aset h (n', true) s2; sp_cur := Some h |} else None
   end.
 
 Fixpoint spec_run (s : sstate) (tr : trace) : option sstate :=
@@ -139,7 +177,7 @@ Fixpoint spec_run (s : sstate) (tr : trace) : option sstate :=
   end.
 
 Definition holds_b (tr : trace) : bool :=
-  match spec_run [] tr with Some _ => true | None => false end.
+  match spec_run sp_init tr with Some _ => true | None => false end.
 Definition holds (tr : trace) : Prop := holds_b tr = true.
 
 (* every finite trace is in the domain; no known finding for C12 *)
